@@ -9,6 +9,8 @@ pub struct TokSrc {
     pub k: usize,
     pub mode: u8,
     pub reads: u8,
+    /// a tokio reader may initialise more of the buffer than it fills (`initialize_unfilled` and a short read)
+    pub init_all: bool,
 }
 impl tokio::io::AsyncRead for TokSrc {
     fn poll_read(mut self: Pin<&mut Self>, _cx: &mut Context<'_>, buf: &mut tokio::io::ReadBuf<'_>) -> Poll<std::io::Result<()>> {
@@ -18,6 +20,9 @@ impl tokio::io::AsyncRead for TokSrc {
             2 => Poll::Ready(Err(Error::from(std::io::ErrorKind::Other))),
             _ => {
                 let k = if self.k < buf.remaining() { self.k } else { buf.remaining() };
+                if self.init_all {
+                    let _ = buf.initialize_unfilled();
+                }
                 buf.put_slice(&self.data[..k]);
                 Poll::Ready(Ok(()))
             }
@@ -59,7 +64,8 @@ pub fn tokio_to_hyper_read(c: usize, pre: usize, k: usize) {
     let prefill: [u8; 4] = kani::any();
     let mode: u8 = kani::any();
     kani::assume(mode <= 2);
-    let mut io = TokioIo::new(TokSrc { data, k, mode, reads: 0 });
+    let init_all: bool = kani::any();
+    let mut io = TokioIo::new(TokSrc { data, k, mode, reads: 0, init_all });
     let mut storage = [std::mem::MaybeUninit::<u8>::uninit(); 16];
     let mut rb = hyper::rt::ReadBuf::uninit(&mut storage[..c]);
     {
